@@ -131,3 +131,92 @@ func ZZRebalance(removed, spares int) {
 	}
 	vReach("end")
 }
+
+// ZZRebalancePlain (C19): balancer rounds for a namespace WITHOUT an anti-affinity policy (nothing but bookkeeping keeps
+// a server from being picked twice) and with unevenly loaded spares: shard 0 lives on {a, b, c}; `extra` further
+// shards live on {c, e, f}, so that the spare server d is the least loaded candidate by far. The servers in
+// `removed` (bit mask over a, b) have left the cluster. A round computes ALL its swaps from one snapshot of the
+// status, so a later proposal for a shard can be stale with respect to an earlier one of the same round. Every
+// proposal goes through what the shard controller does with it — swapNode refuses a request whose source is not a
+// member or whose target already is one (that contract is checked on the real code by ZZSwapStale), otherwise it
+// replaces the source by the target. After every step every ensemble has 3 DISTINCT servers; after a second
+// round on the updated status no departed server is left in any ensemble (a refused proposal is made good by the
+// next round, not lost).
+func ZZRebalancePlain(removed, extra int) {
+	meta := map[string]model.ServerMetadata{}
+	cfg := &zzCfg{meta: meta}
+	for i := 0; i < 6; i++ {
+		meta[zzNames[i]] = model.ServerMetadata{}
+		if i >= 2 || removed&(1<<i) == 0 {
+			cfg.servers = append(cfg.servers, i)
+		}
+	}
+	cfg.ns = &model.NamespaceConfig{Name: "ns", InitialShardCount: 1, ReplicationFactor: 3}
+	ens := map[int64][]model.Server{0: {zzSrv(0), zzSrv(1), zzSrv(2)}}
+	for i := 1; i <= extra; i++ {
+		ens[int64(i)] = []model.Server{zzSrv(2), zzSrv(4), zzSrv(5)}
+	}
+	mkStatus := func() *model.ClusterStatus {
+		shards := map[int64]model.ShardMetadata{}
+		for id, e := range ens {
+			shards[id] = model.ShardMetadata{Status: model.ShardStatusSteadyState, Term: 1, Ensemble: append([]model.Server(nil), e...),
+				Int32HashRange: model.Int32HashRange{Min: uint32(1000 * id), Max: uint32(1000*id + 999)}}
+		}
+		return &model.ClusterStatus{Namespaces: map[string]model.NamespaceStatus{"ns": {ReplicationFactor: 3, Shards: shards}}}
+	}
+	refused := 0
+	for round := 0; round < 2; round++ {
+		ctx, cancel := context.WithCancel(context.Background())
+		r := &nodeBasedBalancer{WaitGroup: &sync.WaitGroup{}, Logger: slog.Default(), scheduleInterval: time.Second, quarantineTime: time.Minute,
+			ctx: ctx, cancel: cancel, actionCh: make(chan Action, 16), statusResource: &zzSt{st: mkStatus()}, configResource: cfg,
+			selector: single.NewSelector(), loadRatioAlgorithm: single.DefaultShardsRank, triggerCh: make(chan struct{}, 1)}
+		done := make(chan bool, 1)
+		vGo("rebalance", func() { r.rebalanceEnsemble(); done <- true })
+		swaps := 0
+		finished := false
+		for !finished {
+			select {
+			case act := <-r.actionCh:
+				sw := act.(*SwapNodeAction)
+				swaps++
+				vAssert("round-terminates", swaps <= 12)
+				_, isServer := cfg.Node(sw.To.Internal)
+				vAssert("target-is-a-current-server", isServer)
+				e := ens[sw.Shard]
+				at, dup := -1, false
+				for i := range e {
+					if e[i].Internal == sw.To.Internal {
+						dup = true
+					}
+					if e[i].Internal == sw.From.Internal {
+						at = i
+					}
+				}
+				if at < 0 || dup {
+					refused++ // shardController.swapNode refuses it (ZZSwapStale); the ensemble stays as it is
+				} else {
+					e[at] = sw.To
+				}
+				for i := 0; i < 3; i++ {
+					for j := 0; j < i; j++ {
+						vAssert("ensemble-has-rf-distinct-servers", e[i].Internal != e[j].Internal)
+					}
+				}
+				act.Done()
+			case <-done:
+				finished = true
+			}
+		}
+		cancel()
+	}
+	if refused > 0 {
+		vReach("a-stale-proposal-was-refused")
+	}
+	for _, e := range ens {
+		for _, m := range e {
+			_, isServer := cfg.Node(m.Internal)
+			vAssert("no-departed-server-left-after-the-next-round", isServer)
+		}
+	}
+	vReach("end")
+}
